@@ -36,6 +36,7 @@ CANON = {'L': 'VL', 'l': 'Vl', 'k': 'Vk', 'f': 'Vf', 't': 'Vt', 'm': 'Vm', 'b': 
 #   names  : local name -> (meaning over canonical variables L,l,k,f,t,m,b,n ; expected list of
 #            definitions of that name before the site: '<param>' or statement text)
 #   secret : width of the range of the masked value (python expression over canonical variables)
+#   cap    : optional range the opened value (secret + all mask summands at their maximum) must stay below
 #   pre    : [(lo, hi)] constraints lo <= hi under which the site is reached without an exception
 #   variants: for a bound held in a variable: label of the assignment (enclosing if-tests) ->
 #            (row suffix, mode)   mode: both | prss | noprss | dealers
@@ -57,7 +58,7 @@ SITES = {
         variants={'if s_is_SecureFiniteField': ('field', 'both'),
                   'else s_is_SecureFiniteField / if self.options.no_prss': ('noprss', 'noprss'),
                   'else s_is_SecureFiniteField / else self.options.no_prss': ('prss', 'prss')},
-        secret='1 << l', pre=[('1', 'l')],
+        secret='1 << l', pre=[('1', 'l')], cap='1 << (k + l + 1)',   # field modulus has more than l+k+1 bits
         doc='x + offset in [0, 2^l); field source: mask uniform modulo the source field order (perfect)'),
     'runtime.trunc#0': dict(
         kind='add', via='randoms', mask='r_divf',
@@ -467,7 +468,7 @@ def build_row(key, fn, call, ann):
     kind = ann['kind']
     base = dict(site=key, kind=KINDS[kind], line=line, opened=unp(call.args[0]) if call.args else '',
                 leak=ann.get('leak') or ann.get('doc', ''), mode='MBoth', bound=None, via='ViaRandoms',
-                scale=('Const', 1), secret=('Const', 0), pre=[], bound_src=None)
+                scale=('Const', 1), secret=('Const', 0), cap=('Const', 0), pre=[], bound_src=None)
     if 'opened' in ann and base['opened'] != ann['opened']:
         raise Unclassified('opened expression is %r, annotated %r' % (base['opened'], ann['opened']))
     for tmpl in ann.get('flow', []):
@@ -485,6 +486,8 @@ def build_row(key, fn, call, ann):
     base['pre'] = [(canon_expr(a), canon_expr(b)) for a, b in ann.get('pre', [])]
     if 'secret' in ann:
         base['secret'] = canon_expr(ann['secret'])
+    if 'cap' in ann:
+        base['cap'] = canon_expr(ann['cap'])
     # where the mask meets the secret
     if 'where' in ann:
         hits = find_stmt(stmts, ann['where'])
@@ -615,10 +618,10 @@ def emit(rows, errors, out):
         if r['bound_src'] is not None:
             L.append('   mask bound: %s' % r['bound_src'])
         L.append('   %s *)' % (r['leak'] or '').replace('*)', '* )'))
-        L.append('Definition %s : mrow := MkRow "%s" %s %s %s %s %s %s [%s].' % (
+        L.append('Definition %s : mrow := MkRow "%s" %s %s %s %s %s %s %s [%s].' % (
             coq_ident(r['site']), r['site'], r['kind'], r['mode'],
             'BNone' if r['bound'] is None else '(BExpr %s)' % coq_of(r['bound']),
-            r['via'], coq_of(r['scale']), coq_of(r['secret']),
+            r['via'], coq_of(r['scale']), coq_of(r['secret']), coq_of(r['cap']),
             '; '.join('(%s, %s)' % (coq_of(a), coq_of(b)) for a, b in r['pre'])))
         L.append('')
     L.append('Definition mask_rows : list mrow := [%s].' % '; '.join(coq_ident(r['site']) for r in rows))
